@@ -77,7 +77,17 @@ Definition is_txtpp_file (p : lexpath) : bool :=
   | None => false
   end.
 
-(* fs/path/mod.rs:105-123.  None = Err *)
+(* the stem path (the source path without its `txtpp` extension and without its own extension) must not
+   end in `.`: for `..txtpp` the derived output `dir/.` has no file name, for `..txtpp.md` the derived
+   output is `<parent>/dir.md` (set_file_name on `dir/.`), outside the source's directory;
+   IOCtx::new (fs/io_context.rs) refuses both (OpenFile) before anything is created *)
+Definition stem_ok (p : lexpath) : bool :=
+  match rev p with
+  | c :: _ => negb (str_eqb c [DOT])
+  | [] => true
+  end.
+
+(* fs/path/mod.rs:105-123 together with the refusal in IOCtx::new.  None = Err *)
 Definition remove_txtpp (p : lexpath) : option lexpath :=
   if negb (is_txtpp_file p) then None else
   let p1 := lex_set_extension p [] in
@@ -85,13 +95,14 @@ Definition remove_txtpp (p : lexpath) : option lexpath :=
   | Some e =>
     if str_eqb e TXTPP_EXT then
       let p2 := lex_set_extension p1 [] in
+      if negb (stem_ok p2) then None else
       match lex_extension p with
       | Some [] => Some p2
       | Some self_ext => Some (lex_append_ext p2 self_ext)     (* appended, not set: the stem keeps its own dots *)
       | None => None
       end
-    else Some p1
-  | None => Some p1
+    else if stem_ok p1 then Some p1 else None
+  | None => if stem_ok p1 then Some p1 else None
   end.
 
 (* the ordered candidates get_txtpp_file probes (fs/path/mod.rs:64-103);
